@@ -2,6 +2,7 @@
 package main
 
 import (
+	"bytes"
 	"fmt"
 	"net"
 	"runtime"
@@ -664,6 +665,85 @@ func reusedConnection(r *ev.Run) {
 	}
 }
 
+// releaseWhileBusy: a client waits for a code; another connection's request is in the middle of a slow round trip to the
+// underlying agent (a signature waiting for a touch); a request with the awaited code arrives on a third connection.
+// The waiter is released by the arrival of that request — it does not have to wait for the unrelated slow request
+// (nor for the handling of the matching one, which queues behind it) to finish. Decided by order, not by a clock: the
+// waiter's return is observed before the slow request's reply (which the scripted agent holds back for 1.8 s).
+func releaseWhileBusy(r *ev.Run) {
+	for vi, code := range []byte{11, 19} {
+		c := r.Case("release-while-busy", vi)
+		if c == nil || wedgedOnce || r.NumViolations() > 8 {
+			continue
+		}
+		r.Eval(1)
+		r.Guard(c, "matching request arrives while another request is in flight", code, func() {
+			g, err := newRig(false)
+			if err != nil {
+				r.Count("release-while-busy: rig could not be built", 1)
+				return
+			}
+			defer g.close()
+			slow := append([]byte{200}, []byte("held-back-by-the-underlying-agent")...)
+			g.ag.SetPlan(func(_ int, req []byte) wire.Action {
+				if bytes.Equal(req, slow) {
+					return wire.Action{Kind: wire.Honest, Delay: 1800 * time.Millisecond}
+				}
+				return wire.Action{Kind: wire.Honest}
+			})
+			w, err := g.startWaiter(code)
+			if err != nil {
+				return
+			}
+			defer w.conn.Close()
+			if n := waitParked(1, ev.OpTimeout()); n != 1 {
+				r.Violation(c, "waiter-does-not-register:release-while-busy", fmt.Sprintf("code %d: %d parked", code, n), code)
+				return
+			}
+			// second connection: the slow relayed request
+			p1, p2, err := wire.SocketPair()
+			if err != nil {
+				return
+			}
+			defer p1.Close()
+			go func() { defer p2.Close(); defer func() { recover() }(); yubiagent.ServeAgent(g.srv, p2) }()
+			n0 := g.ag.NumRequests()
+			slowDone := make(chan struct{})
+			go func() {
+				defer close(slowDone)
+				p1.Write(wire.Frame(slow))
+				p1.SetReadDeadline(time.Now().Add(ev.OpTimeout() + 5*time.Second))
+				wire.ReadFrame(p1)
+			}()
+			deadline := time.Now().Add(ev.OpTimeout())
+			for g.ag.NumRequests() == n0 && time.Now().Before(deadline) {
+				time.Sleep(200 * time.Microsecond)
+			}
+			if g.ag.NumRequests() == n0 {
+				r.Count("release-while-busy: the slow request never reached the underlying agent (not judged)", 1)
+				return
+			}
+			// third connection: a request with the awaited code (its own handling may queue behind the slow one)
+			go g.poke(code)
+			select {
+			case e := <-w.done:
+				if e != nil {
+					r.Violation(c, "released-waiter-reports-error:release-while-busy", e.Error(), code)
+					return
+				}
+				r.Count("waiters released by a matching request while another request was in flight", 1)
+				r.Nontrivial(fmt.Sprintf("release-while-busy:%d", code))
+			case <-slowDone:
+				r.Violation(c, "waiter-not-released-before-an-unrelated-request-finished", fmt.Sprintf("a request with code %d arrived while another connection's relayed request was held back by the underlying agent for 1.8 s; the waiter on %d was still parked when that unrelated request completed", code, code), code)
+			case <-time.After(ev.OpTimeout() + 10*time.Second):
+				r.Violation(c, "waiter-not-released:release-while-busy", fmt.Sprintf("code %d", code), code)
+				wedgedOnce = true
+			}
+			<-slowDone
+		})
+	}
+}
+
 // worn: an agent that has already received a great many requests with the awaited code (an agent lives for days and
 // every ssh connection attempt sends a listing request). The number of earlier requests crosses the 8- and 16-bit
 // boundaries while waiters come and go: each waiter must ignore a non-matching request and be released by the next
@@ -866,6 +946,7 @@ func main() {
 		racing(r)
 		worn(r)
 		reusedConnection(r)
+		releaseWhileBusy(r)
 		cs := []string{}
 		_ = sort.Strings
 		_ = cs
